@@ -578,3 +578,56 @@ def search_sharing(r, epg, ncase):
         if probs:
             dis.append({"kind": "c11-sharing", "problems": probs, "input": {"plan": plan, "values": vals}})
     return checked, dis, dist
+
+
+# ---------------------------------------------------------------------------
+# correspondence `bind`: VirtualOperator.__init__ argument binding vs the Lean model `Bind.bindPos`
+
+def compare_bind(r, epg, ncase):
+    """every virtual operator class, a random number of positional arguments and a random subset of the remaining
+    positional names given as keywords in random order (possibly leaving a gap): the list `op.positionals` vs the model,
+    and construction fails exactly when a keyword is left that is neither a keyword nor an option of the class"""
+    from epgpy import sequence as sq
+
+    classes = [c for c in ("T", "E", "P", "R", "S", "D", "X", "Phi", "PD", "Wait", "Offset") if hasattr(sq, c)]
+    lines, expect = [], []
+    for _ in range(ncase):
+        cname = classes[r.integers(len(classes))]
+        cls = getattr(sq, cname)
+        P = list(cls.POSITIONALS)
+        n = int(r.integers(0, len(P) + 1))
+        rest = P[n:]
+        given = [k for k in rest if r.random() < 0.75]
+        order = [given[i] for i in r.permutation(len(given))]
+        args = [1000.0 + i for i in range(n)]
+        kwargs = {k: 2000.0 + P.index(k) for k in order}
+        try:
+            op = cls(*args, **kwargs)
+            got = []
+            for e in op.positionals:
+                v = float(e())
+                got.append(f"#{int(v - 1000)}" if v < 2000 else P[int(v - 2000)])
+            res = ("ok", got, sorted(set(op.keywords) | {k for k in op.options}))
+        except Exception as exc:
+            res = ("err", type(exc).__name__, None)
+        lines.append(f"vbind {','.join(P)} {n} {','.join(order) if order else '-'}")
+        expect.append((cname, P, n, order, res, list(cls.KEYWORDS), list(cls.OPTIONS)))
+    out = lib.run_driver(lines) if lines else []
+    dis, checked = [], 0
+    for (cname, P, n, order, res, KW, OPT), line in zip(expect, out):
+        checked += 1
+        model = [t for t in line.split(" ", 1)[1].split(",") if t] if " " in line else []
+        leftover = [k for k in order if k not in model]
+        allowed = set(KW) | {o for o in OPT if isinstance(o, str)}
+        must_fail = (Ellipsis not in OPT and None not in OPT) and any(k not in allowed for k in leftover)
+        problems = []
+        if res[0] == "ok":
+            if res[1] != model:
+                problems.append(("positionals bound differently from the model (epgpy, model)", res[1], model))
+            if must_fail:
+                problems.append(("keywords left over that the class does not know, yet construction succeeded", leftover))
+        elif not must_fail:
+            problems.append(("construction raised although every keyword is a parameter of the class", res[1], leftover))
+        if problems:
+            dis.append({"kind": "bind-vs-model", "problems": problems, "input": {"class": cname, "positionals": P, "nargs": n, "keywords": order}})
+    return checked, dis
